@@ -151,6 +151,8 @@ def cases(tier):
         cs += float_cases('double', 'aligned_highp', CFG_AVX2)
     for T in (('int', 'uint') if tier == 'quick' else ('int', 'uint', 'int64', 'int16')):
         cs += int_cases(T)
+    from rules import c10_aux
+    cs += c10_aux.cases(tier)
     cs += canaries()
     return cs
 
